@@ -1,5 +1,6 @@
 import Props.C01
 import Proofs.SchedLive
+import Proofs.SchedTerm
 /-!
 # C03 — scheduling always terminates and leaves no worker thread behind
 
@@ -367,5 +368,50 @@ theorem raises_iff_cyclic {c : Cfg} (hc : c.WF) (hw : 0 < c.workers) (env : Env)
         obtain ⟨_, hcc⟩ := Inv_reach hc ha0 hc0 hprev
         exact raised_stuck hcc (by rw [hprev_eq]; exact hinit.2 hcy) hs
     rw [this]; exact hinit.2 hcy
+
+/-! ### termination -/
+
+theorem InvG_init {c : Cfg} (env : Env) (clk : Nat) : InvG c (init c env [] 0 clk) := by
+  refine ⟨Nat.le_refl _, ?_, ?_, ?_⟩
+  · intro _; show (List.range c.n).length + ([] : List Nat).length ≤ c.n; simp
+  · intro hh; exfalso; revert hh; simp only [init]; split <;> (try split) <;> (try split) <;> simp
+  · intro k _; exact ⟨rfl, by show (List.range c.n).length = c.n; simp, rfl⟩
+
+/-- an execution of `k` steps -/
+inductive Steps (c : Cfg) (s0 : State) : Nat → State → Prop
+  | zero : Steps c s0 0 s0
+  | succ {k s s'} : Steps c s0 k s → Step c s s' → Steps c s0 (k + 1) s'
+
+/-- **every execution is finite, with an explicit bound**: an execution of `k` steps from the initial state has
+`k + mu s ≤ mu init` (the measure `mu` of Proofs/SchedTerm.lean strictly decreases at every step of every thread, for
+every interleaving) -/
+theorem bounded_executions {c : Cfg} (hc : c.WF) (hw : 0 < c.workers) (env : Env) (clk : Nat) (he : EnvOK env)
+    {k : Nat} {s : State} (hx : Steps c (init c env [] 0 clk) k s) : k + mu c s ≤ mu c (init c env [] 0 clk) := by
+  have key : (InvA c s ∧ InvC c s ∧ InvG c s) ∧ k + mu c s ≤ mu c (init c env [] 0 clk) := by
+    induction hx with
+    | zero => exact ⟨⟨InvA_init env [] 0 clk he rfl, InvC_init hw env clk, InvG_init env clk⟩, by omega⟩
+    | succ _ hs ih =>
+      obtain ⟨⟨ha, hcc, hg⟩, hle⟩ := ih
+      have := mu_decreases ha hcc hg hs
+      exact ⟨⟨InvA_step hc ha hs, InvC_step hc ha hcc hs, InvG_step ha hcc hg hs⟩, by omega⟩
+  exact key.2
+
+/-- **scheduling always terminates**: there is no infinite execution, whatever the interleaving -/
+theorem always_terminates {c : Cfg} (hc : c.WF) (hw : 0 < c.workers) (env : Env) (clk : Nat) (he : EnvOK env)
+    (f : Nat → State) (h0 : f 0 = init c env [] 0 clk) (hstep : ∀ i, Step c (f i) (f (i + 1))) : False := by
+  have hx : ∀ k, Steps c (init c env [] 0 clk) k (f k) := by
+    intro k
+    induction k with
+    | zero => rw [h0]; exact Steps.zero
+    | succ k ih => exact Steps.succ ih (hstep k)
+  have := bounded_executions hc hw env clk he (hx (mu c (init c env [] 0 clk) + 1))
+  omega
+
+/-- an execution is also a reachability witness: with `no_deadlock` and `clean_exit`, an execution that cannot be
+extended has returned (or raised, for a cyclic graph) with every worker thread exited -/
+theorem steps_reach {c : Cfg} {s0 s : State} {k : Nat} (hx : Steps c s0 k s) : Reach c s0 s := by
+  induction hx with
+  | zero => exact Reach.init
+  | succ _ hs ih => exact Reach.step ih hs
 
 end Sched
